@@ -234,9 +234,11 @@ def judge(ctx, base, name, case, tmo=300, bisect=True):
     ft = features(case, evs, info2)
     if ft:
         key += ":" + ":".join(ft)
-    sel = [c.split(":", 1)[1] for c in case["cfg"] if "coll-selector" in c]
-    if sel and evs[-1][0].split()[1] in tigen.COLLS and culprit != "barrier":
-        key += ":selector=" + sel[0]
+    if evs[-1][0].split()[1] in tigen.COLLS and culprit != "barrier":
+        if selector(case["cfg"]):
+            key += ":selector=" + selector(case["cfg"])
+        if overheads(case["cfg"]):
+            key += ":overheads"
     det = {k: v for k, v in info2.items() if k != "stats"}
     what = "%s np=%d: replay of the TI trace %s after '%s' (%d-event prefix of a %d-event program): %s" % (
         name, case["np"], st2, " | ".join(evs[-1][:3]), len(evs), len(case["events"]), det)
@@ -261,17 +263,35 @@ def run(ctx):
         nev = rng.choice([6, 12, 20, 35]) if np_ <= 8 else rng.choice([6, 12])
         # the call kinds listed in known_findings.d/C37.json are kept out of the random programs (their divergence
         # would hide any other one); the directed cases re-find them on every run
-        p = tigen.program(rng, np_, nev, avoid=AVOID)
-        jobs.append(("rnd%d" % i, {"np": np_, "hosts": tigen.hostfile(rng, hosts, np_), "platform": xml,
-                                   "cfg": tigen.config(rng, avoid=AVOID), "events": p.events}))
+        cfg = tigen.config(rng, avoid=AVOID)
+        p = tigen.program(rng, np_, nev, exclude=excluded(cfg, np_), avoid=AVOID + (("zero-coll",) if selector(cfg) else ()))
+        jobs.append(("rnd%d" % i, {"np": np_, "hosts": tigen.hostfile(rng, hosts, np_), "platform": xml, "cfg": cfg, "events": p.events}))
     try:
         ctx.pmap(lambda j: judge(ctx, base, j[0], j[1]), jobs)
     finally:
         shutil.rmtree(base, ignore_errors=True)
 
 
+def selector(cfg):
+    return next((c.split(":", 1)[1] for c in cfg if "coll-selector" in c), None)
+
+
+def overheads(cfg):
+    return any(c.startswith("--cfg=smpi/os:") or c.startswith("--cfg=smpi/or:") for c in cfg)
+
+
+def excluded(cfg, np_):
+    """Call kinds kept out of a random program under a given configuration."""
+    ex = set()
+    if selector(cfg) and np_ & (np_ - 1):
+        ex.add("alltoallv")          # the ompi selector picks alltoallv/pair, which refuses (online) a non power of two: C29's business
+    if "scan-overheads" in AVOID and overheads(cfg):
+        ex.update(("scan", "exscan"))
+    return ex
+
+
 # Triggers of the open known findings (known_findings.d/C37.json), kept out of the random programs: see tigen.program/config.
-AVOID = ("zero-gather-scatter", "test-key-reuse", "smp-selectors")
+AVOID = ("zero-gather-scatter", "test-key-reuse", "smp-selectors", "scan-overheads")
 
 
 def replay(ctx, w):
